@@ -24,7 +24,7 @@ BOUNDS = {"quick": "full product with all 8 lengths; hierarchies depth 3, 2^3 in
 
 LENS_Q = [0, 1, 24, 256, 65536]
 LENS_T = [0, 1, 23, 24, 255, 256, 65535, 65536]
-NAMES = ["fw.bin", "deadbeef.bin", "cafe/f00d", "./abcdef", "a b.bin", "zażółć_€.bin", "0x0e0aa000", "0X0E0AA000"]
+NAMES = ["fw.bin", "deadbeef.bin", "cafe/f00d", "./abcdef", "a b.bin", "zażółć_€.bin", "0x0e0aa000", "0X0E0AA000", "fw[1]*?.bin", "-{fw}#.v2.bin"]
 
 
 def content(n, salt=0):
